@@ -41,6 +41,15 @@ def gen_case(rng, tier, k):
         ops.append(["skiprem"])
         for _ in range(rng.randint(1, 4)):
             ops.append([rng.choice(["seedsq", "setsq"]), rng.randrange(64)])
+    elif rng.random() < 0.3:
+        # hand-driven partial expansion of a grid-shaped lattice, attractor search in the expanded part,
+        # skip completion, more attractor queries (skip nodes then rely on answers computed earlier)
+        bnet = common.g_chains(rng, total_max=nmax + 1, kind=rng.choice(["maa", "burst"]))
+        ops.append(["frontier", rng.randrange(1 << 30), rng.randint(3, 14), rng.choice([0.0, 0.2, 0.3]), rng.choice([0.0, 0.3])])
+        ops.append(["expseeds"] if rng.random() < 0.7 else ["seedsq", rng.randrange(64)])
+        ops.append(["skiprem"])
+        for _ in range(rng.randint(0, 3)):
+            ops.append([rng.choice(["seedsq", "setsq"]), rng.randrange(64)])
     else:
         for _ in range(rng.randint(2, 8)):
             if rng.random() < 0.3:
